@@ -40,7 +40,7 @@ def file_total(version, timecnt, typecnt, charcnt_max=3, extra=2, **_):
     if version >= 2: return HDR + data_len(4, 0, 1, 1) + HDR + data_len(8, timecnt, typecnt, charcnt_max) + 2 + extra
     return HDR + data_len(4, timecnt, typecnt, charcnt_max) + extra
 
-def job_load(version, timecnt, typecnt, charcnt_max=3, extra=2, big_types=False, queries=True, lean=False):
+def job_load(version, timecnt, typecnt, charcnt_max=3, extra=2, big_types=False, queries=True, lean=False, fixed_times=False):
     mod = tz.module()
     ex = symex.Executor(mod, tlimit_ms=120000)
     ex.max_unwind = 300 if big_types else 40
@@ -94,6 +94,12 @@ def job_load(version, timecnt, typecnt, charcnt_max=3, extra=2, big_types=False,
             for off_ in (20, 24, 28): ex.assume(st, eq(be(B[hb + off_:hb + off_ + 4]), 0))
             ex.assume(st, eq(be(B[hb + 32:hb + 36]), timecnt)); ex.assume(st, eq(be(B[hb + 36:hb + 40]), typecnt))
             ex.assume(st, eq(be(B[hb + 40:hb + 44]), charcnt_max))
+            if fixed_times:
+                # shapes aimed at the type bookkeeping (default type, type indices, flags): the transition times are the fixed
+                # increasing values 1000*(i+1); every type index, offset, flag and abbreviation byte stays symbolic
+                tlen_ = 8 if version >= 2 else 4
+                for i in range(timecnt):
+                    ex.assume(st, eq(be(B[hb + HDR + tlen_ * i: hb + HDR + tlen_ * (i + 1)]), 1000 * (i + 1)))
         elif not big_types:
             count_field(hb + 20, 0, typecnt)       # ttisutcnt
             count_field(hb + 24, 0, typecnt)       # ttisstdcnt
@@ -198,6 +204,28 @@ def check_wf(ex, st, zobj, info, hb, version, timecnt, typecnt):
             c = and_(*[eq(unix[s + i], file_times[i]) for i in range(timecnt)])
             lead = c if lead is None else or_(lead, c)
         ex.prove(st, lead, "Load => the recorded transition times are the file's big-endian two's-complement values, in file order")
+    # the before-first-transition type, read off the bytes by the rule of tzcode's localtime.c: type 0 unless a transition uses
+    # type 0; then, if type 0 is DST, the nearest standard type at or below the first transition's type, and from there the first
+    # standard type going up (none: type 0)
+    if typecnt <= 4:
+        tbase = base + tlen * timecnt
+        ftype = [B[tbase + i] for i in range(timecnt)]
+        ybase = tbase + timecnt
+        fdst = [ne(B[ybase + 6 * t + 4], 0) for t in range(typecnt)]
+        used0 = or_(*[eq(ft, 0) for ft in ftype]) if timecnt else False
+        def U(j): return typecnt if j >= typecnt else ite(fdst[j], U(j + 1), j)
+        def D(v): return 0 if v == 0 else ite(fdst[v], D(v - 1), v)
+        def sel(x, f, n):
+            r = f(n - 1)
+            for v in range(n - 2, -1, -1): r = ite(eq(x, v), f(v), r)
+            return r
+        if timecnt:
+            start = ite(fdst[0], sel(ftype[0], D, typecnt), 0)
+            up = sel(start, U, typecnt)
+            want = ite(used0, ite(eq(up, typecnt), 0, up), 0)
+        else:
+            want = 0
+        ex.prove(st, eq(dflt, want), "Load => default_transition_type_ is the type tzcode designates for times before the first transition (type 0 unless a transition uses it)")
 
 # ---------------------------------------------------------------------------------------------- replay
 def image_from_model(model, total):
@@ -224,6 +252,14 @@ def native_load_check(img, timeout=5, t=None, cs=None):
     if p.returncode not in (0, 1):
         return "crash (exit %d) on a %d-byte image: %s" % (p.returncode, len(img), err[-200:])
     return None
+
+def footer_image(footer):
+    """a minimal valid version-2 image (one type, no transitions) followed by the given footer"""
+    import struct
+    def block(v2):
+        h = b"TZif" + b"2" + b"\0" * 15 + struct.pack(">6l", 0, 0, 0, 0, 1, 4)
+        return h + struct.pack(">lBB", 0, 0, 0) + b"UTC\0"
+    return block(False) + block(True) + b"\n" + footer + b"\n"
 
 _exe = {}
 def _replay_exe():
@@ -255,13 +291,36 @@ def run(tier):
         jobs.append(("Load+queries:v2,timecnt=1,typecnt=1", job_load, {"version": 2, "timecnt": 1, "typecnt": 1, "queries": True}))
     lean = [(1, 1, 2)] if tier == "quick" else [(1, 1, 2), (1, 2, 2), (2, 1, 2), (2, 2, 2), (1, 2, 3)]
     jobs += [("Load(lean):v%d,timecnt=%d,typecnt=%d" % s, job_load, {"version": s[0], "timecnt": s[1], "typecnt": s[2], "charcnt_max": 1, "lean": True, "queries": False}) for s in lean]
+    ft = [(1, 2, 2)] if tier == "quick" else [(1, 2, 2), (2, 2, 2), (1, 3, 3)]
+    jobs += [("Load(lean,fixed times):v%d,timecnt=%d,typecnt=%d" % s_, job_load, {"version": s_[0], "timecnt": s_[1], "typecnt": s_[2], "charcnt_max": 1, "lean": True, "queries": False, "fixed_times": True}) for s_ in ft]
     jobs.append(("Load:v1,timecnt=1,typecnt=256(8-bit default-type search)", job_load, {"version": 1, "timecnt": 1, "typecnt": 256, "charcnt_max": 1, "big_types": True}))
+    # the footer: every NUL-free byte string up to FL bytes through the real ParsePosixSpec (E2 units of C16: bounds, NULL and
+    # overflow obligations of each sub-parser with its lower levels replaced by their contracts)
+    from . import c16
+    FL = 12 if tier == "quick" else 16
+    jobs += [("footer:ParsePosixSpec unit H%d,L=%d" % (hh, FL), c16.job_unit, {"H": hh, "L": FL, "zone": zz}) for hh, zz in ((1, None), (2, None), (3, 0), (3, 1), (4, None), (5, None))]
     results = common.run_jobs(jobs)
     rep.add_jobs(results)
+    rep.add_module("wrap/posix.cc", c16.module())
     known = common.load_known()
     for r, j in zip(results, jobs):
         for fobj in r["failed"]:
             m = fobj["model"]
+            if r["name"].startswith("footer:"):
+                # embed the string (and completions of it) as the footer of a small valid version-2 image and load that natively
+                hit = None
+                bs0 = bytes(m.get("bytes", [])).split(b"\0")[0]
+                for t in [bs0] + [bs0[:i] for i in range(len(bs0) - 1, -1, -1)]:
+                    for pre in (b"", b"AAA0BBB", b"AAA0BBB,J1", b"AAA", b"AAA0BBB0"):
+                        for post in (b"", b",J1", b",J1,J1"):
+                            img = footer_image(pre + t + post)
+                            w = native_load_check(img)
+                            if w: hit = (img, w); break
+                        if hit: break
+                    if hit: break
+                if hit: rep.violation("footer:%s" % fobj["desc"][:60], hit[1] + "  [%s: %s]" % (r["name"], fobj["desc"]), {"image": list(hit[0])})
+                else: rep.spurious.append({"job": r["name"], "obligation": fobj["desc"], "bytes": list(bs0)})
+                continue
             kw = j[2]
             total = file_total(**kw)
             img = image_from_model(m, total)
@@ -274,10 +333,11 @@ def run(tier):
                 rep.violation("%s:%s" % (kind, fobj["desc"][:60]), w + "  [%s: %s]" % (r["name"], fobj["desc"]), {"image": list(img), "t": m.get("q_t"), "cs": m.get("q_cs")})
             else:
                 rep.spurious.append({"job": r["name"], "obligation": fobj["desc"], "image_len": len(img)})
-    rep.bounds = ["every byte of the image symbolic; header counts: timecnt/typecnt as per job shape %s, charcnt <= 3, leapcnt <= 1, ttisstd/ttisut <= typecnt, or negative" % shapes,
-                  "lean shapes (optional counts fixed to 0, one abbreviation byte): %s" % lean, "versions 1 and 2+ (empty footer)", "typecnt = 256 with one transition (the 8-bit default-type search)",
+    rep.bounds = ["footer: every NUL-terminated byte string of length <= %d through ParsePosixSpec's units (CBMC, unwinding assertions)" % FL,
+                  "every byte of the image symbolic; header counts: timecnt/typecnt as per job shape %s, charcnt <= 3, leapcnt <= 1, ttisstd/ttisut <= typecnt, or negative" % shapes,
+                  "lean shapes (optional counts fixed to 0, one abbreviation byte): %s" % lean, "lean shapes with the transition times fixed to 1000, 2000, .. (type indices, offsets, flags symbolic): %s" % ft, "versions 1 and 2+ (empty footer)", "typecnt = 256 with one transition (the 8-bit default-type search)",
                   "loops: unwinding bound 40 (300 for the 256-type job) with state-recurrence detection for non-termination"]
-    rep.outside = ["data lengths above the bound (the header can declare up to 2^31 items of each kind)", "non-empty POSIX footers (C16 covers the parser; ExtendTransitions' 401-year loop is not executed here)",
+    rep.outside = ["data lengths above the bound (the header can declare up to 2^31 items of each kind)", "footers longer than the stated bound; the composition of Load with a non-empty footer is by units (Load with ParsePosixSpec stubbed + ParsePosixSpec's units on every string); ExtendTransitions' 401-year loop is decided in C01",
                    "allocation failure", "the 32-bit block of a version-2+ file is fixed to its smallest shape (it is skipped, not decoded)"]
     rep.assumptions = ["civil_second default construction/+/- replaced by their ordinal contracts (C04/C05)", "std::string API and operator new/delete modelled in engine/strmodel.py; std::vector runs from its own IR",
                        "the harness ZoneInfoSource serves exactly the image bytes (Read short at the end, Skip always succeeds)"]
